@@ -1,11 +1,13 @@
 import Driver.Proto
 import Driver.Codec
+import Driver.Conv
 
 open Driver
 
 def dispatch (c : Case) : Verdict :=
   let fam := c.op
   if fam.startsWith "hex" || fam.startsWith "b64" || fam == "blk.enc" || fam == "blk.dec" then Driver.Codec.handle c
+  else if fam == "conv" || fam == "blk.conv" then Driver.Conv.handle c
   else { corr := false, why := "no handler for op " ++ c.op }
 
 structure Stats where
@@ -25,11 +27,11 @@ def jsonStr (s : String) : String :=
   "\"" ++ (s.toList.foldl (fun acc c =>
     acc ++ (if c == '"' then "\\\"" else if c == '\\' then "\\\\" else if c.toNat < 32 then " " else c.toString)) "") ++ "\""
 
-partial def loop (h : IO.FS.Stream) (st : Stats) : IO Stats := do
+partial def loop (active : List String) (h : IO.FS.Stream) (st : Stats) : IO Stats := do
   let line ← h.getLine
   if line.isEmpty then return st
   let line := (line.dropEndWhile (fun c => c == '\n' || c == '\r')).toString
-  if line.isEmpty then loop h st else
+  if line.isEmpty then loop active h st else
   let c := parseLine line
   let v := dispatch c
   let mut st := { st with lines := st.lines + 1, items := st.items + v.items }
@@ -40,7 +42,7 @@ partial def loop (h : IO.FS.Stream) (st : Stats) : IO Stats := do
   if st.samples.size < 6 ∧ st.lines % 997 == 1 then st := { st with samples := st.samples.push line }
   let kind :=
     if v.corr ∧ v.spec then "PASS"
-    else if v.known ≠ "" ∧ !v.spec then "KNOWN"
+    else if v.known ≠ "" ∧ !v.spec ∧ active.contains v.known then "KNOWN"
     else if v.corr then "SPECFAIL"
     else if v.spec then "MISMATCH" else "VIOLATION"
   match kind with
@@ -51,11 +53,12 @@ partial def loop (h : IO.FS.Stream) (st : Stats) : IO Stats := do
   | _ => st := { st with violation := st.violation + 1 }
   if kind ≠ "PASS" then
     IO.println s!"R {kind} known={if v.known == "" then "-" else v.known} why={sanitize (if v.why == "" then "-" else v.why)} model={sanitize v.model} :: {line}"
-  loop h st
+  loop active h st
 
 def main (_args : List String) : IO UInt32 := do
   let stdin ← IO.getStdin
-  let st ← loop stdin {}
+  let active := ((← IO.getEnv "ST_KNOWN").getD "").splitOn ","
+  let st ← loop active stdin {}
   let br := st.branches.toList.map fun (k, n) => s!"{jsonStr k}:{n}"
   let sm := st.samples.toList.map jsonStr
   IO.println ("SUMMARY {" ++ s!"\"lines\":{st.lines},\"items\":{st.items},\"pass\":{st.pass},\"mismatch\":{st.mismatch}," ++
